@@ -43,7 +43,7 @@ STRENGTH = {
  "C17-j": "the recording visitor returns a fresh value from every callback and checks which callback produced the value each callback arrives at (Index must arrive at VisitMany's result, Field at Visit's)",
  "C01-k": "same-name variants (each identifier given the name of the previous / last-but-one identifier, all identifiers equal) and alias-collapse variants (`operand AS x` -> `x AS x`) of every systematic sentence (C01, C02)",
  "C04-k": "C04 stops Preorder / Inspect / PreorderMany / InspectMany early at up to 14 points per tree (first two, middle, last two nodes, around every root boundary)",
- "C08-k": "query slot matrix: 9 query forms as parenthesised leading operand x 10 larger query forms x 22 query slots (C08); built it showed `(query) |> operator` rejected in sub-query positions on the pinned tree (known finding K9)",
+ "C08-k": "query slot matrix: 9 query forms as parenthesised leading operand x 12 larger query forms x 22 query slots (C08); building it exposed K9 (`(query) |> operator` rejected in sub-query positions), repaired by a fix: commit",
  "C18-k": "multi-key hints in front of every short corpus statement and every context-sensitive statement (C18 determinism set, evaluated by 16 fresh processes and concurrently)",
  "C08-i": "value-slot matrix: 94 expression forms (incl. field paths with reserved-word and digit-leading components) in 51 slots where the grammar allows any expression (C01, C02, C08)",
  "C09-i": "open-then-broken family: 22 statements left open (brackets, constructors, look-ahead in progress) x 3 separators x 10 lexically malformed tokens x 3 heads, through the list and single entries (tree workload and C03)",
